@@ -55,6 +55,7 @@ private:
     bool wipe_on_expiry_{true};
     std::uint8_t wipe_passes_{1};
     std::filesystem::path storage_root_;
+    std::vector<std::filesystem::path> pending_wipes_;  // files whose wipe failed; retried by every sweep
     mutable std::mutex chunks_mutex_;
 
     static std::chrono::steady_clock::time_point compute_expiry(std::chrono::seconds ttl);
@@ -62,7 +63,9 @@ private:
     bool ensure_storage_directory();
     bool persist_chunk_to_disk(const std::string& key, const ChunkRecord& record);
     bool secure_wipe_file(const std::filesystem::path& path) const;
-    void purge_orphaned_chunk_files() const;
+    void purge_orphaned_chunk_files();
+    void wipe_or_retry_later(const std::filesystem::path& path);
+    void retry_pending_wipes();
     void wipe_persisted_chunk(const ChunkRecord& record);
 };
 
